@@ -75,7 +75,7 @@ def run(C, R):
                                where(F, w), {'trace': trace_summary(path)})
             nins += fair_no_requeue(R, E, F, m, paths, owns, 'C04.R4', 'mutex', excluded)
             nq += fifo_ends(R, E, F, m, paths, 'C04.R2')
-            check_typestate(R, E, F, roles, STATE, m, paths, 'C04.R3')
+            check_typestate(R, E, F, roles, STATE, m, paths, 'C04.R3', only_fair=True)
         R.floor('C04.R1 lock-set-paths[%s]' % cfg, nset, 3)
         R.floor('C04.R2 queue-op-kinds[%s]' % cfg, nq, 4)
         R.floor('C04.R4 enqueue-paths[%s]' % cfg, nins, 1)
